@@ -8,7 +8,7 @@
 (* sequence; any other wrong answer stays a VIOLATION.                            *)
 EXTENDS RankSelect, TLC
 
-KnownIds == {"C04-KF1", "C04-KF2", "C04-KF3", "C04-KF4", "C04-KF5", "C04-KF6", "C04-KF7", "C04-KF8"}
+KnownIds == {}
 
 Seq0(n) == [j \in 1..n |-> j - 1]
 
